@@ -98,6 +98,14 @@ type obs struct {
 	recovered bool
 	recCount  int // how often the recovery function was called for this request ("exactly once")
 	recVal    any
+	extra     string // what a nested request issued from inside this request's handler observed (op nserve)
+}
+
+// nestedReq: the request the next invoked handler issues on the same router before it goes on (op nserve): two requests
+// are alive at once without a second goroutine, each must see exactly its own parameters (contexts are pooled).
+type nestedReq struct {
+	h   http.Handler
+	req *http.Request
 }
 
 type executor struct {
@@ -111,6 +119,7 @@ type executor struct {
 	pHandlers, pMws, pBases map[int]int
 	cur     *obs
 	curRec  *rec
+	nested  *nestedReq
 	// sinks of the bundled recovery options (WithWriteRecovery / WithLogRecovery / WithSLogRecovery)
 	recW, recL, recG bytes.Buffer
 }
@@ -235,6 +244,18 @@ func (x *executor) call(w http.ResponseWriter, r *http.Request, route types.Rout
 	o.callLine = fmt.Sprintf("call base=%s wraps=%s %s params=%s router=%s head=%s path=%s hdr=%s",
 		base, fmtWraps(wraps), node, encMap(params), encB(route.RouterName()), b2s(head), encB(r.URL.Path), encHdr(w.Header()))
 
+	if n := x.nested; n != nil {
+		x.nested = nil
+		saveCur, saveRec := x.cur, x.curRec
+		inner := x.serve(n.h, n.req)
+		x.cur, x.curRec = saveCur, saveRec
+		x.recW.Reset()
+		x.recL.Reset()
+		x.recG.Reset()
+		after := map[string]string{}
+		route.Params().Range(func(k, v string) { after[k] = v })
+		o.extra = " nested={" + inner + "} after=" + encMap(after)
+	}
 	// request time: middlewares outermost first, then the handler itself
 	for i := len(wraps) - 1; i >= 0; i-- {
 		if v, ok := x.pMws[wraps[i].mw]; ok {
@@ -470,6 +491,7 @@ func (x *executor) serve(h http.Handler, req *http.Request) (out string) {
 		}
 		return "nocall => "
 	}
+	defer func() { out += o.extra }()
 	defer func() {
 		if v := recover(); v != nil {
 			out = prefix() + "panicked:" + fmtPanicVal(v)
@@ -722,6 +744,14 @@ func (x *executor) step(line string) string {
 		if r == nil {
 			return "bad-op no-router"
 		}
+		return x.serve(r, mkRequest(t[2], t[3], t[4], t[5]))
+	case t[0] == "nserve" && len(t) == 9:
+		r := x.routers[atoi(t[1])]
+		if r == nil {
+			return "bad-op no-router"
+		}
+		x.nested = &nestedReq{h: r, req: mkRequest(t[7], t[8], "%_", "%-")}
+		defer func() { x.nested = nil }()
 		return x.serve(r, mkRequest(t[2], t[3], t[4], t[5]))
 	case t[0] == "url" && len(t) == 5:
 		r := x.routers[atoi(t[1])]
